@@ -134,7 +134,7 @@ func provEq(A *Aff, b *ssa.BasicBlock, x, y *Lin) bool {
 }
 
 func checkC04(c *Ctx) {
-	c.Explanation = "Decides that the MSM4/MSM7 decoders read the standard's layout into the right fields: (R1) the bit reads of the header reader (type at bit 24, then 11 fixed fields and the Nsat*Nsig cell mask), of the two satellite-cell readers and of the two signal-cell readers are, in control-flow order, exactly the oracle's fields — width, signedness, one contiguous field array per field repeated Nsat (satellites) resp. NumSignalCells (signals) times, starting where the previous section ended (header end; satellites start + Nsat*cell length); (R2) each read value reaches the like-named struct field through the constructor; (R3) mask expansion: satellite mask 64 bits and signal mask 32 bits scanned from the most significant bit with ids 1..64 / 1..32, cell mask of Nsat*Nsig bits row-major (satellite-major), rejected above 64 bits; (R4) attachment: every signal cell is built from Signals[j], &satCells[i] and the c-th entry of every field array, c advancing exactly once per constructed cell and only for cells whose mask bit is set, appended to signalCells[i]; (R5) padding non-interference: the frame length influences nothing but error exits; (R6) rejection sites are exactly the allowed reasons; (R7) each family decodes exactly its own message types. Later additions: every successful return of the family decoders hands back New(header, satellites, signals) built from the three readers; successful returns of the cell readers follow their complete loops; the signal-overrun exit compares the cell count with a capacity computed from the frame length alone."
+	c.Explanation = "Decides that the MSM4/MSM7 decoders read the standard's layout into the right fields: (R1) the bit reads of the header reader (type at bit 24, then 11 fixed fields and the Nsat*Nsig cell mask), of the two satellite-cell readers and of the two signal-cell readers are, in control-flow order, exactly the oracle's fields — width, signedness, one contiguous field array per field repeated Nsat (satellites) resp. NumSignalCells (signals) times, starting where the previous section ended (header end; satellites start + Nsat*cell length); (R2) each read value reaches the like-named struct field through the constructor; (R3) mask expansion: satellite mask 64 bits and signal mask 32 bits scanned from the most significant bit with ids 1..64 / 1..32, cell mask of Nsat*Nsig bits row-major (satellite-major), rejected above 64 bits; (R4) attachment: every signal cell is built from Signals[j], &satCells[i] and the c-th entry of every field array, c advancing exactly once per constructed cell and only for cells whose mask bit is set, appended to signalCells[i]; (R5) padding non-interference: the frame length influences nothing but error exits; (R6) rejection sites are exactly the allowed reasons; (R7) each family decodes exactly its own message types. Later additions: every successful return of the family decoders hands back New(header, satellites, signals) built from the three readers; successful returns of the cell readers follow their complete loops; the signal-overrun exit compares the cell count with a capacity computed from the frame length alone. (R9) the no-panic obligations (C07 engine) of the two family decoders hold, so no well-formed message (empty masks included) aborts decoding."
 	c.NotDecided = "the bit reader's arithmetic (C14); the numerical result of the mask-to-list loops beyond their structure; that a cell mask with fewer set bits than cells in the data is well formed (the standard says the mask describes the message)."
 	P := c.P
 	or, err := loadLayoutOracle(c.Verifdir)
@@ -306,6 +306,20 @@ func checkC04(c *Ctx) {
 	c.MinInstances("C04-R1", 36)
 	c.MinInstances("C04-R2", 14)
 	c.MinInstances("C04-R3", 5)
+	// R9: no well-formed (or any other) message makes a decoder panic instead of decoding it: the
+	// no-panic obligations (C07 engine) of the two family decoders
+	var roots []*ssa.Function
+	for _, fam := range []string{"msm4", "msm7"} {
+		if g := P.Func("rtcm/type_"+fam+"/message", "GetMessage"); g != nil {
+			roots = append(roots, g)
+		} else {
+			c.Unresolved("C04-R9", "rtcm/type_"+fam+"/message.GetMessage")
+		}
+	}
+	if len(roots) == 2 {
+		runBounds(c, "C04-R9", roots)
+		c.MinInstances("C04-R9", 100)
+	}
 	c.MinInstances("C04-R4", 10)
 	c.MinInstances("C04-R5", 8)
 	c.MinInstances("C04-R6", 8)
